@@ -160,15 +160,20 @@ def overlaps_at_least(range1, range2, delta=0):
     ovlp2 = range2[1] - range1[0]
     if ovlp1 < 0 or ovlp2 < 0:
         return False
+    if contains(range1, range2) or contains(range2, range1):
+        # one range inside the other one (also when they share an end)
+        return True
     d = delta - 1
     if range1[1] < range2[1]:
-        return ovlp1 >= d or range1[0] >= range2[0]
+        return ovlp1 >= d
     else:
-        return ovlp2 >= d or range1[0] <= range2[0]
+        return ovlp2 >= d
 
 
 # dangerous function, works only when range1 and range2 are already known to overlap, do not use if unsure
 def overlaps_at_least_when_overlap(range1, range2, delta=0):
+    if contains(range1, range2) or contains(range2, range1):
+        return True
     if range1[1] < range2[1]:
         return range1[0] >= range2[0] or range1[1] - range2[0] + 1 >= delta
     else:
